@@ -41,6 +41,9 @@ DATASETS = [
 PRE_QUICK = ["log_squared_euclidean", "euclidean", "canberra", "kullback_leibler", "jaccard",
              "chord", "hamming", "gaussian"]
 OPS = ["save", "load", "predict_orig", "predict_loaded", "save_loaded"]
+# pre-computed mode only: the distance FILE is rewritten with other numbers after the model read it
+# (a saved model must not depend on that file any more)
+PRE_OPS = OPS + ["rewrite_distance_file"]
 
 
 def bounds(tier):
@@ -63,6 +66,8 @@ def plan(tier, seed):
     for kind in KINDS:
         for mt in (axioms.NAMES if tier == "thorough" else ["log_squared_euclidean", "canberra"]):
             shards.append(("proc", kind, mt))
+    for kind in KINDS:
+        shards.append(("names", kind))
     # longer histories (save / mutate by predicting / save again to the same path / load ...)
     for kind in KINDS:
         for mt in (["log_squared_euclidean"] if tier == "quick" else ["log_squared_euclidean", "canberra", "euclidean"]):
@@ -224,6 +229,11 @@ def run_sequence(kind, metric, mode, di, seq, seed, res=None):
                     if a != b:
                         return ("the loaded model predicts %r, the original %r" % (a, b),
                                 "loaded predictions differ")
+                elif op == "rewrite_distance_file":
+                    pf = os.path.join(tmpdir, "pre.txt")
+                    if os.path.exists(pf):
+                        M = np.loadtxt(pf, ndmin=2)
+                        np.savetxt(pf, M * 3.0 + 1.0)
                 elif op == "save_loaded":
                     before = full_state(loaded)
                     nfile += 1
@@ -243,7 +253,8 @@ def run_sequence(kind, metric, mode, di, seq, seed, res=None):
         shutil.rmtree(tmpdir, ignore_errors=True)
 
 
-def sequences(depth):
+def sequences(depth, ops=None):
+    ops = ops or OPS
     out = []
 
     def rec(seq, has_file, has_loaded):
@@ -251,7 +262,7 @@ def sequences(depth):
             out.append(list(seq))
         if len(seq) == depth:
             return
-        for op in OPS:
+        for op in ops:
             if op == "load" and not has_file:
                 continue
             if op in ("predict_loaded", "save_loaded") and not has_loaded:
@@ -309,6 +320,38 @@ def run_proc(kind, metric, seed, res):
             shutil.rmtree(tmpdir, ignore_errors=True)
 
 
+def names_case(kind, seed):
+    """Two different models saved under sibling file names that contain dots and do not end in
+    .pkl (also inside a directory whose name contains a dot); each file must give back its own model."""
+    ds = DATASETS[0]
+    tmpdir = tempfile.mkdtemp(prefix="c19-", dir=scratch_dir())
+    try:
+        a = fit_original(kind, "manhattan", "features", ds, tmpdir, seed)
+        b = fit_original(kind, "chebyshev", "features", DATASETS[1], tmpdir, seed)
+        sub = os.path.join(tmpdir, "run.1")
+        os.makedirs(sub, exist_ok=True)
+        for pa, pb in ((os.path.join(tmpdir, "blobs.first.opf"), os.path.join(tmpdir, "blobs.second.opf")),
+                       (os.path.join(sub, "model"), os.path.join(tmpdir, "run.2-model"))):
+            sa, sb = full_state(a), full_state(b)
+            a.save(pa)
+            b.save(pb)
+            for path, want, name in ((pa, sa, "first"), (pb, sb, "second")):
+                l = construct(kind, "euclidean")
+                l.load(path)
+                if full_state(l) != want:
+                    return ("two models were saved as %s and %s; loading the %s file gives back a model that "
+                            "differs from the one saved there (%s)" % (os.path.basename(pa), os.path.basename(pb),
+                                                                       name, diff_fields(want, full_state(l))),
+                            "file name handling: a file gives back another model")
+        return None, None
+    except Horizon:
+        raise
+    except Exception as ex:
+        return "save/load with dotted file names raised %r" % (ex,), "dotted file names raised %s" % type(ex).__name__
+    finally:
+        shutil.rmtree(tmpdir, ignore_errors=True)
+
+
 def viol(prog, prob, sym):
     return {"check": "save-load", "program": prog, "observed": prob,
             "allowed": "identical state and predictions", "explanation": prob,
@@ -317,13 +360,25 @@ def viol(prog, prob, sym):
 
 def run(shard, seed):
     res = Result()
+    if shard[0] == "names":
+        p, sym = names_case(shard[1], seed)
+        res.evaluations += 1
+        res.traces += 1
+        res.states += 1
+        res.nontrivial += 1
+        res.transitions += 8
+        if p:
+            res.violations.append(viol({"kind": shard[1], "names": True, "seed": seed}, p, sym))
+        res.outcome(shard)
+        res.sample({"kind": shard[1], "files": ["blobs.first.opf", "blobs.second.opf", "run.1/model", "run.2-model"]}, 1)
+        return res
     if shard[0] == "proc":
         run_proc(shard[1], shard[2], seed, res)
         res.outcome(shard)
         res.sample({"kind": shard[1], "metric": shard[2], "seq": ["save", "load-in-new-interpreter", "predict"]}, 1)
         return res
     _, kind, metric, mode, depth = shard
-    seqs = sequences(depth)
+    seqs = sequences(depth, PRE_OPS if mode == "pre" else OPS)
     for di in range(len(DATASETS)):
         for seq in seqs:
             try:
@@ -349,6 +404,9 @@ def run(shard, seed):
 
 def replay(case):
     p = case["program"]
+    if p.get("names"):
+        prob, sym = names_case(p["kind"], p.get("seed", 0))
+        return viol(p, prob, sym) if prob else None
     if p.get("proc"):
         r = Result()
         run_proc(p["kind"], p["metric"], 0, r)
